@@ -8,7 +8,8 @@ CLASSES = ['garbage', 'empty', 'json-not-object', 'heads-null', 'heads-empty', '
            'head-no-identity', 'head-identity-null', 'head-identity-empty', 'head-identity-no-signatures', 'head-no-clock',
            'head-clock-null', 'head-no-hash', 'head-no-sig', 'head-no-key', 'head-no-payload', 'head-no-id', 'head-ill-typed',
            'heads-ill-typed', 'address-unknown', 'address-missing', 'address-ill-typed', 'huge-numbers', 'deep-nesting',
-           'truncated-real', 'mutated-real', 'real-hash-alias', 'real-payload-changed', 'head-links-to-malformed-block']
+           'truncated-real', 'mutated-real', 'real-hash-alias', 'real-payload-changed', 'head-links-to-malformed-block',
+           'real-identity-sig-changed', 'real-identity-keysig-changed']
 
 
 def wire_cfg(nmal, nval):
@@ -26,7 +27,7 @@ CHECK_DEADLOCK FALSE
 def c12(prop, tier):
     ck = Check(prop, tier)
     thorough = tier == 'thorough'
-    ck.rule = ('sequences (malformed* valid)* of spec/Wire.tla over 28 message classes x {topic, direct} realised with seeded concrete '
+    ck.rule = ('sequences (malformed* valid)* of spec/Wire.tla over 33 message classes x {topic, direct} realised with seeded concrete '
                'byte strings (structural JSON mutations of a real message, random bytes, truncations, byte-level mutations) on a real '
                'instance holding two databases; raw stream frames through the real libp2p direct channel; a crash of the process is '
                'an observation; non-trivial = every case (each delivers at least one malformed message)')
